@@ -77,12 +77,9 @@ def run(idx: Index, rep: Report, tier: str) -> None:
     rep.note_function(cts.qualname)
     rep.note_function(pt.qualname)
     # branches of the reader: test text -> body
-    branches = []
-    cur = [s for s in cts.node.body if isinstance(s, ast.If)]
-    node = cur[0] if cur else None
-    while isinstance(node, ast.If):
-        branches.append(node)
-        node = node.orelse[0] if len(node.orelse) == 1 and isinstance(node.orelse[0], ast.If) else None
+    from ..rules2 import dispatch_links
+
+    branches = dispatch_links(cts.node.body)
     if len(branches) < 4:
         raise AnalysisError("anchor vanished: branches of convert_type_str")
     reader_consts = {c for b in branches for c in str_consts(b.test)}
@@ -99,7 +96,16 @@ def run(idx: Index, rep: Report, tier: str) -> None:
         if not br:
             rep.bad(rule2, f"reader branch for bounded {word} types", cts.loc(), construct=f"no branch tests 'up:{word}['", detail=f"a bounded {word} type name is not recognised by the reader", function=cts.qualname)
             continue
-        handled = {c for s in br[0].body for c in str_consts(s)}
+        # the statements executed when the name has that prefix, whichever way the dispatch is written (elif body,
+        # or the fall-through after `if not … in s: return …`)
+        from ..rules import cfg_of as _cfg_of
+        from ..rules2 import path_facts
+
+        ccfg = _cfg_of(cts)
+        handled = set()
+        for nd in ccfg.nodes:
+            if nd.ast is not None and nd.kind in ("stmt", "return") and any(f"up:{word}[" in txt and val for txt, val in path_facts(ccfg, nd)):
+                handled |= set(str_consts(nd.ast))
         for tok in sorted(set(emitted)):
             ok = any(tok.strip() == h.strip() for h in handled)
             rep.check(ok, rule2, f"reader branch 'up:{word}[' handles the token '{tok}' that {cname}.__repr__ emits", cts.loc(br[0]), construct=f"'{tok}' vs handled {sorted(handled)}", detail="" if ok else f"a half-bounded {word} type is written as 'up:{word}[-inf, 5]' / 'up:{word}[0, inf]' but the reader passes the token to a number constructor: reading the message raises", function=cts.qualname)
